@@ -61,7 +61,7 @@ def run(tier, seed):
     hot = [{"from": f"{y}/06/15", "to": f"{y}/07/25", "Tmax": 43.0, "Tmin": 31.5} for y in (2001, 2002, 2003)]
     traced = [S("MaizeGDD", "Loam", seed=seed + 40, seasons=3, regime="hot", events=hot), S("WheatGDD", "SandyLoam", seed=seed + 41, seasons=2, regime="warm", off_season=True, lead=15),
               S("Tomato", "Clay", seed=seed + 42, seasons=2, events=hot)]
-    rc1 = tracebase.trace_check(PROP, tier, seed, traced, [], pairwise=(tier == "thorough"))
+    rc1 = tracebase.trace_check(PROP, tier, seed, traced, [], pairwise=(tier == "thorough"), level="exploration")
     rc2 = equivbase.equiv_check(PROP, tier, seed, jobs, pairs, level="exploration", merge=True,
                                  rule_text="C15: weather-table transformations (column permutation x extra columns x index kind x extra rows outside the window) "
                                            "vs the canonical table, rule identity", extra={"transformation_space": len(space), "exhaustive": False})
